@@ -2,8 +2,8 @@
    (generic) and Inst_Walker.v / Inst_Dispatch.v (about the tables REGENERATED from /repo on this run). *)
 From Coq Require Import List NArith Bool Arith Lia String.
 From RG.Ast Require Import Tree Walker WalkerProof WalkSpec WfCheck.
-From RG.Engine Require Import Dispatch RunState MatchEnv.
-From RGW Require Import Gen_AstSchema Gen_Walker Gen_WalkTags Gen_WalkTables Inst_Walker Inst_Dispatch.
+From RG.Engine Require Import Dispatch RunState MatchEnv LoadFail Reentrant.
+From RGW Require Import Gen_AstSchema Gen_Walker Gen_WalkTags Gen_WalkTables Gen_RunnerState Inst_Walker Inst_Dispatch.
 Import ListNotations.
 
 (* No region of the file is skipped, nothing is offered twice: for EVERY tree (every construct of go/ast's own
@@ -75,6 +75,44 @@ Theorem C01_merge_bookkeeping_ok :
   gen_engine_load_first_direct_then_merge_after = true /\ gen_loadfile_merges_own_then_imported = true.
 Proof. exact gen_bookkeeping_ok. Qed.
 Print Assumptions C01_merge_bookkeeping_ok.
+
+(* Load calls that fail, anywhere in a history (the file does not parse or type-check, a pattern is rejected, a group is
+   loaded already -- "redefinition of X()"), with the caller carrying on: a rejected call leaves the engine as it was, so
+   after ANY sequence of Load calls the engine holds what the accepted calls alone produce, and its rules are those of the
+   engine (C01_engine_load_history_is_built) that was given the accepted files only.  Rests on where mergeRuleSets builds
+   its result, read from source on this run: a fresh set, the engine's live set is only read. *)
+Theorem C01_rejected_load_leaves_engine_unchanged :
+  forall e c, gaccepts e c = false -> gen_gengine_load e c = e.
+Proof. exact gen_rejected_load_is_noop. Qed.
+Print Assumptions C01_rejected_load_leaves_engine_unchanged.
+
+Theorem C01_engine_holds_the_accepted_loads_only :
+  forall e calls,
+  gen_ghistory e calls = gen_ghistory e (map Some (gen_gaccepted e calls)) /\
+  option_map g_rules (gen_ghistory e calls) =
+    fold_left (engine_load gen_cmode gen_kmode gen_nb) (map g_rules (gen_gaccepted e calls)) (option_map g_rules e).
+Proof. intros e calls. split; [apply gen_history_is_accepted_history|apply gen_history_rules]. Qed.
+Print Assumptions C01_engine_holds_the_accepted_loads_only.
+
+Theorem C01_merge_builds_a_fresh_set :
+  gen_mmode = MergeFresh /\ gen_merge_rejects_redefined_groups = true /\ gen_merge_starts_empty = true.
+Proof. exact gen_merge_fresh. Qed.
+Print Assumptions C01_merge_builds_a_fresh_set.
+
+(* runs of one engine that overlap -- a Report callback that calls Engine.Run itself, at any depth, or a run on another
+   goroutine that starts while this one is in the middle of its file: whatever the interleaving of their walks, as long
+   as every RunnerState is used by one run at a time, every run delivers to its own callback exactly the reports of its own
+   walk (which are the specified ones, C01_reports_exact).  A run without RunContext.State gets a state nobody else can
+   have: newRulesRunner, read on this run, allocates it for the run (newRunnerState, every part of it new). *)
+Theorem C01_overlapping_runs_report_their_own :
+  forall steps, exclusive [] steps = true -> forall r, delivered (exec w0 steps) r = lone steps r.
+Proof. exact exclusive_runs_exact. Qed.
+Print Assumptions C01_overlapping_runs_report_their_own.
+
+Theorem C01_nil_state_is_the_runs_own :
+  nil_policy_ok gen_nil_policy = true /\ gen_nil_policy = NilFresh /\ gen_new_runner_state_allocates_all = true.
+Proof. destruct gen_nil_state_is_fresh as [H1 H2]. rewrite H1. auto. Qed.
+Print Assumptions C01_nil_state_is_the_runs_own.
 
 (* the pattern of a rule (and the sub-pattern of its Contains() filters) is compiled with the import table of the rule's
    OWN group: for every sequence of groups of a file -- with imports, without, in any order, whatever the loader was
@@ -192,3 +230,25 @@ Proof. split; reflexivity. Qed.
 Example c01_shared_matcher_state_refuted :
   enum N 4 "s" "s" (fun _ => [1; 2; 3]) 0 (fun c => [7; 8]) = [1; 8].
 Proof. exact enum_aliased_refuted. Qed.
+(* a merge that accumulates in place in the engine's own set: the rules of a rejected file are live *)
+Example c01_in_place_merge_refuted :
+  let a := {| g_rules := load_set [] [] [ {| r_id := 0; r_tag := 5 |} ] []; g_names := [1] |} in
+  let b := {| g_rules := load_set [] [] [ {| r_id := 1; r_tag := 5 |} ] []; g_names := [2; 1] |} in
+  gaccepts (Some a) (Some b) = false /\
+  option_map (fun s => map r_id (rs_buckets (g_rules s) 5)) (gengine_load CountPerBucket CommentsAppend 49 MergeInPlaceFirst (Some a) (Some b)) = Some [0; 1] /\
+  option_map (fun s => map r_id (rs_buckets (g_rules s) 5)) (gengine_load CountPerBucket CommentsAppend 49 MergeFresh (Some a) (Some b)) = Some [0].
+Proof. exact in_place_refuted. Qed.
+(* a history with two rejected calls (a redefinition, a loader failure) between accepted ones *)
+Example c01_rejected_calls_demo :
+  accept_flags None [ (true, [1; 2], ([ {| r_id := 0; r_tag := tidx "Ident" |} ], [], []));
+                      (true, [3; 2], ([ {| r_id := 1; r_tag := tidx "Ident" |} ], [], []));
+                      (false, [4], ([ {| r_id := 2; r_tag := tidx "Ident" |} ], [], []));
+                      (true, [5], ([ {| r_id := 3; r_tag := tidx "Ident" |} ], [], [])) ] = [true; false; false; true].
+Proof. vm_compute. reflexivity. Qed.
+(* a state handed to a nested run while the outer run is walking: the outer run's later reports reach the nested run's
+   callback *)
+Example c01_shared_state_refuted :
+  let steps := [Start 0 7; Visit 0 1; Start 1 7; Visit 1 5; Finish 1; Visit 0 2; Finish 0] in
+  exclusive [] steps = false /\
+  delivered (exec w0 steps) 0 = [1] /\ lone steps 0 = [1; 2] /\ delivered (exec w0 steps) 1 = [5; 2].
+Proof. exact early_release_refuted. Qed.
